@@ -22,7 +22,7 @@ import (
 // -count does). Successor = replay of the history on a fresh world + 1 op.
 
 type c03Op struct {
-	Op       string `json:"op"` // call | end
+	Op       string `json:"op"` // call | end | cleanupcall (t.Cleanup registers a function that makes the call when the execution ends)
 	Test     string `json:"test"`
 	Val      string `json:"val,omitempty"`
 	Upd      bool   `json:"upd,omitempty"`
@@ -58,6 +58,9 @@ func (o c03Op) String() string {
 	if o.NoCreate {
 		u += ",Update(false)"
 	}
+	if o.Op == "cleanupcall" {
+		return fmt.Sprintf("Cleanup(%s,func(){Call(%q%s)})", o.Test, vfClip(o.Val), u)
+	}
 	return fmt.Sprintf("Call(%s,%q%s)", o.Test, vfClip(o.Val), u)
 }
 
@@ -81,6 +84,7 @@ func c03Apply(c *vfCtx, cs c03Case, checkFrom int) (key uint64, ok bool) {
 		defer func() { vfParseNoFinalNL = false }()
 	}
 	live := map[string]*vfT{}
+	pending := map[string]*c03Pending{}
 	for i, op := range cs.Ops {
 		t := live[op.Test]
 		if t == nil {
@@ -94,9 +98,34 @@ func c03Apply(c *vfCtx, cs c03Case, checkFrom int) (key uint64, ok bool) {
 			return ""
 		}
 		if op.Op == "end" {
+			// a call registered with t.Cleanup is made while the execution ends: it is the test's next call (in time order)
+			pd := pending[op.Test]
+			var want, slot, id string
+			if pd != nil {
+				want, slot, id = m.call(op.Test, pd.cl, vfFormat(pd.cl))
+			}
 			t.end()
 			m.endTest(op.Test)
 			delete(live, op.Test)
+			delete(pending, op.Test)
+			if pd == nil || i < checkFrom {
+				continue
+			}
+			c.count("transitions", 1)
+			c.outcome("cleanup:" + slot + "->" + pd.got)
+			k15 := class()
+			if k15 == "" && pd.bodyAfter {
+				k15 = "K15-call-in-cleanup-registered-before-a-body-call"
+			}
+			if pd.got != want {
+				c.violation(k15, fmt.Sprintf("after %s: the call made by the cleanup function of %s when its execution ended should address slot [%s] (%s in the model) and signal %s, it signalled %s",
+					c03Hist(cs.Ops[:i]), op.Test, id, slot, want, pd.got), cs)
+				return 0, false
+			}
+			if p := vfCheckDisk(dir, m); p != "" {
+				c.violation(k15, fmt.Sprintf("after %s then %s (which runs the call registered with t.Cleanup): %s", c03Hist(cs.Ops[:i]), op, p), cs)
+				return 0, false
+			}
 			continue
 		}
 		cl := vfCall{API: "snap", Val: op.Val, File: op.File}
@@ -108,6 +137,20 @@ func c03Apply(c *vfCtx, cs c03Case, checkFrom int) (key uint64, ok bool) {
 		}
 		if op.NoCreate {
 			cl.Upd = "false"
+		}
+		if op.Op == "cleanupcall" {
+			pd := &c03Pending{cl: cl}
+			pending[op.Test] = pd
+			tt := t
+			tt.Cleanup(func() {
+				mk := tt.mark()
+				pd.cl.do(tt, dir)
+				pd.got = tt.outcome(mk)
+			})
+			continue
+		}
+		if pd := pending[op.Test]; pd != nil {
+			pd.bodyAfter = true
 		}
 		mk := t.mark()
 		var want, slot, id string
@@ -147,6 +190,45 @@ func c03Apply(c *vfCtx, cs c03Case, checkFrom int) (key uint64, ok bool) {
 		}
 	}
 	return vfHash(fmt.Sprint(vfHashDir(vfSnapDir(dir))), strings.Join(vfSorted(run), ";")), true
+}
+
+// c03Pending is a call a test registered with t.Cleanup (at most one per execution).
+type c03Pending struct {
+	cl        vfCall
+	got       string
+	bodyAfter bool // the test made a call of its own after registering the function
+}
+
+// c03CleanupCalls: a test registers, somewhere between its k calls, a cleanup function that makes one more call; that call
+// happens when the execution ends and is the test's (k+1)-th call. Executed twice (record, replay) and with an update.
+func c03CleanupCalls(emit func(c03Case)) {
+	for k := 0; k <= 3; k++ {
+		for at := 0; at <= k; at++ {
+			for _, upd := range []bool{false, true} {
+				for _, other := range []bool{false, true} {
+					var ops []c03Op
+					for exec := 0; exec < 2; exec++ {
+						for i := 0; i <= k; i++ {
+							if i == at {
+								ops = append(ops, c03Op{Op: "cleanupcall", Test: "TestA", Val: fmt.Sprintf("late%d", exec*map[bool]int{true: 1}[upd]), Upd: upd && exec == 1})
+							}
+							if i < k {
+								ops = append(ops, c03Op{Op: "call", Test: "TestA", Val: fmt.Sprintf("v%d", i)})
+							}
+							if other && i == 0 {
+								ops = append(ops, c03Op{Op: "call", Test: "TestB", Val: "b"})
+							}
+						}
+						ops = append(ops, c03Op{Op: "end", Test: "TestA"})
+						if other {
+							ops = append(ops, c03Op{Op: "end", Test: "TestB"})
+						}
+					}
+					emit(c03Case{Ops: ops})
+				}
+			}
+		}
+	}
 }
 
 func c03Hist(ops []c03Op) string {
@@ -547,6 +629,7 @@ func init() {
 			c03Failing(emit)
 			c03BigFile(emit)
 			c03NoCreate(emit)
+			c03CleanupCalls(emit)
 		}
 		lin(func(cs c03Case) {
 			if !c.mine() {
